@@ -98,7 +98,39 @@ abbrev Msg := Int × Int × Nat
 def innerToks (magic : Nat) (inner : List (Int × Nat)) : List Tok :=
   inner.flatMap fun (f, t) => [Tok.h1 magic f false, Tok.kv t 0]
 
-/-- `readMessageV1(min, …)` -/
+/-- the body of `readMessageV1`'s loop after its `readHeader`; `k` is `continue` -/
+def v1Body (min : Int) (k : MSR → Except Fail (MSR × Msg)) (r : MSR) : Except Fail (MSR × Msg) :=
+  match r.stack with
+  | [] => .error (.desync, r)
+  | l :: ls =>
+    if l.codec then
+      -- discardN(4), readBytesWith(decompress), extractOffset, markRead, push, continue
+      match l.toks with
+      | .zv _ inner :: ts =>
+        let r1 := { r with stack := { l with toks := ts } :: ls }
+        do
+          let r2 ← markRead r1
+          let child : Lvl := { toks := innerToks l.magic inner, base := wrapperBase l.first inner }
+          k { r2 with stack := child :: r2.stack }
+      | [] => .error (.shortRead, r)
+      | .cut :: _ => .error (.shortRead, r)
+      | _ :: _ => .error (.desync, r)
+    else
+      let offset := l.first + l.base
+      match l.toks with
+      | .kv t _ :: ts =>
+        let r1 := { r with stack := { l with toks := ts } :: ls }
+        if offset < min then do
+          let r2 ← markRead r1                            -- discardBytes ×2, markRead, continue
+          k r2
+        else do
+          let r2 ← markRead r1                            -- readBytesWith(key), readBytesWith(val), markRead, return
+          pure (r2, (offset, -1, t))
+      | [] => .error (.shortRead, r)
+      | .cut :: _ => .error (.shortRead, r)
+      | _ :: _ => .error (.desync, r)
+
+/-- `readMessageV1(min, …)`: `for r.readerStack != nil { if r.remain == 0 { pop; continue }; readHeader; … }` -/
 def readMessageV1 (min : Int) : Nat → MSR → Except Fail (MSR × Msg)
   | 0, r => .error (.desync, r)
   | fuel + 1, r =>
@@ -108,34 +140,7 @@ def readMessageV1 (min : Int) : Nat → MSR → Except Fail (MSR × Msg)
       if l.toks.isEmpty then readMessageV1 min fuel { r with stack := ls }     -- r.remain == 0: pop, continue
       else do
         let r ← readHeader r
-        match r.stack with
-        | [] => .error (.desync, r)
-        | l :: ls =>
-          if l.codec then
-            -- discardN(4), readBytesWith(decompress), extractOffset, markRead, push, continue
-            match l.toks with
-            | .zv _ inner :: ts =>
-              let r1 := { r with stack := { l with toks := ts } :: ls }
-              let r2 ← markRead r1
-              let child : Lvl := { toks := innerToks l.magic inner, base := wrapperBase l.first inner }
-              readMessageV1 min fuel { r2 with stack := child :: r2.stack }
-            | [] => .error (.shortRead, r)
-            | .cut :: _ => .error (.shortRead, r)
-            | _ :: _ => .error (.desync, r)
-          else
-            let offset := l.first + l.base
-            match l.toks with
-            | .kv t _ :: ts =>
-              let r1 := { r with stack := { l with toks := ts } :: ls }
-              if offset < min then do
-                let r2 ← markRead r1                            -- discardBytes ×2, markRead, continue
-                readMessageV1 min fuel r2
-              else do
-                let r2 ← markRead r1                            -- readBytesWith(key), readBytesWith(val), markRead, return
-                pure (r2, (offset, -1, t))
-            | [] => .error (.shortRead, r)
-            | .cut :: _ => .error (.shortRead, r)
-            | _ :: _ => .error (.desync, r)
+        v1Body min (readMessageV1 min fuel) r
 
 /-- `readMessageV2` -/
 def readMessageV2 (r : MSR) : Except Fail (MSR × Msg) := do
